@@ -1,7 +1,9 @@
 package main
 
 import (
+	"verif/internal/refauth2"
 	"verif/internal/refp7"
+	"verif/internal/refpe"
 )
 
 // embeddedSpcDigest returns the digest inside the SpcIndirectDataContent of a
@@ -13,4 +15,28 @@ func embeddedSpcDigest(blob []byte) ([]byte, error) {
 	}
 	_, d, err := sd.SpcDigest()
 	return d, err
+}
+
+// certTableBlobs returns the certificate data of each WIN_CERTIFICATE in an
+// image's attribute certificate table, read with the independent reader.
+func certTableBlobs(img []byte) [][]byte {
+	im, err := refpe.ParseHeaders(img)
+	if err != nil || im.CertSize == 0 || int(im.CertVA)+int(im.CertSize) > len(img) {
+		return nil
+	}
+	ents, _ := refpe.WalkCertTable(img[im.CertVA : im.CertVA+im.CertSize])
+	var out [][]byte
+	for _, e := range ents {
+		out = append(out, e.Data)
+	}
+	return out
+}
+
+// refAuth2 returns the certificate data and payload of an authentication descriptor.
+func refAuth2(b []byte) (certData, payload []byte, err error) {
+	a, n, err := refauth2.ParseAuth2(b)
+	if err != nil {
+		return nil, nil, err
+	}
+	return a.Data, b[n:], nil
 }
